@@ -390,7 +390,11 @@ class Ctx:
             idt += [np.int16]
             if va.size and va.min() >= 0:
                 idt += [np.uint16, np.uint32, np.uint64] + ([np.uint8] if va.max() < 256 else [])
-        a = np.array(value, dtype=idt[int(self.rng.integers(0, len(idt)))])
+        dt = idt[int(self.rng.integers(0, len(idt)))]
+        va = np.asarray(value)
+        if va.size and (va.min() < np.iinfo(dt).min or va.max() > np.iinfo(dt).max):
+            dt = np.int64                                      # the harness never wraps a value itself
+        a = np.array(value, dtype=dt)
         if a.dtype not in (np.dtype(np.int64), np.dtype(np.int32)):
             self.axes['axis2_vii_param_dtype_' + a.dtype.name] = 1
         if k == 'intview' and a.ndim == 1:
